@@ -11,7 +11,6 @@ import (
 	"time"
 
 	"github.com/dominant-strategies/go-quai/common"
-	"github.com/dominant-strategies/go-quai/core/rawdb"
 	"github.com/dominant-strategies/go-quai/core/state"
 	"github.com/dominant-strategies/go-quai/core/types"
 	"github.com/dominant-strategies/go-quai/core/vm"
@@ -160,7 +159,7 @@ func classify(err error) string {
 	case errors.Is(err, vm.ErrOutOfGas):
 		return "oog"
 	case errors.Is(err, vm.ErrCodeStoreOutOfGas):
-		return "code-store-oog"
+		return "code-store-out-of-gas"
 	case errors.Is(err, vm.ErrWriteProtection):
 		return "write-protection"
 	case errors.Is(err, vm.ErrInvalidAccessList):
@@ -811,5 +810,3 @@ func inside(f *frame) string {
 	}
 	return strings.Join(in, "+")
 }
-
-var _ = rawdb.ReadCoinbaseLockup
